@@ -48,13 +48,15 @@ def shards(tier, seed):
 
 def kclass(k, n):
     if k < 0:
-        return "neg"
+        return "neg" if (not n or -k <= 2 * n) else "neg<-2n"
     if k in (0, 1, 2):
         return "tiny"
     if n and k in (n - 1, n, n + 1):
         return "n+-1"
     if n and k in (2 * n - 1, 2 * n, 2 * n + 1):
         return "2n+-1"
+    if n and k > 4 * n:
+        return ">4n"
     if n and k > 2 * n:
         return ">2n"
     if n and k > n:
@@ -128,6 +130,9 @@ def run(ctx, name, kind, **kw):
                 decl = rng.choice((oP, t.N))
                 gen_obj = PointJacobi(cfp, P[0], P[1], 1, decl, generator=True)   # table built on first multiplication below
                 ks = list(range(-3, 2 * oP + 4))
+                # scalars "of any size": far outside [-ord, 2 ord] in both directions
+                ks += [-(2 * oP + 1), -(3 * oP + 2), -(5 * oP + 1), -(6 * oP + 1), -(8 * oP + 3), -(oP * oP + 1), -(oP ** 3 + 2), -(1 << 40) - 1,
+                       5 * oP + 1, 8 * oP + 3, oP * oP + 1, oP ** 3 + 2, (1 << 40) + 1, -(t.N * 7 + 1), t.N * 9 + 2]
                 rng.shuffle(ks)   # the first k (any class) triggers the lazy build
                 for i, k in enumerate(ks):
                     kc = kclass(k, oP)
@@ -195,6 +200,8 @@ def run(ctx, name, kind, **kw):
         bits = n.bit_length()
         ks = [0, 1, -1, 2, -2, 3, n - 1, n, n + 1, 2 * n - 1, 2 * n, 2 * n + 1, 3 * n + 5, -(n - 1), -n, -(n + 1), n // 2, n // 2 + 1,
               int("aa" * ((bits + 7) // 8), 16), int("55" * ((bits + 7) // 8), 16), (1 << bits) - 1, (1 << (bits + 1)) + 1, n - 2, n + 2]
+        ks += [-(3 * n + 5), -(5 * n + 1), -(6 * n + 1), -(8 * n + 1), -(n * n) + 1, -(n * n + 1), -(1 << (bits + 40)), -(1 << (2 * bits)) - 1,
+               5 * n + 1, 8 * n + 3, n * n + 1, (1 << (bits + 40)) + 1, (1 << (2 * bits)) + 1]
         for j in (1, 2, 7, 8, 31, 32, 63, 64, bits - 2, bits - 1, bits):
             ks += [1 << j, (1 << j) - 1, (1 << j) + 1]
         for _ in range(kw["nrand"]):
